@@ -8,6 +8,28 @@ runner.setup_paths()
 props = [json.loads(l) for l in open(os.path.join(VERIF, "properties.jsonl"))]
 NA = json.load(open(os.path.join(VERIF, "tools", "not_applicable.json")))
 WIP = json.load(open(os.path.join(VERIF, "tools", "wip.json")))  # modules still being built: not registered yet
+TECH = {
+ "C01": ("property-based testing: generated models + library models, invariant oracle (stock balance, junction pass-through, head count)", "exploration of generated ModelSpecs and perturbed library projects; every index and compartment of every run is checked against the conservation invariants computed from the recorded arrays"),
+ "C02": ("property-based testing: extreme-value generated models, sign/overdraw invariants + one-step replay of the rescale rule", "exploration with extreme value classes forced on; ratio preservation decided by an independent one-step replay from atomica's own state"),
+ "C03": ("exhaustive enumeration of time-grid settings + property-based differential testing against an independent reference simulator (one-step replay and free run)", "grid predicate over an enumerated product of (start, span, dt) plus drawn triples; every link of every generated/library model replayed by the documented conversion rules; free run of a reference simulator written from the documentation"),
+ "C04": ("property-based testing: junction-biased generated models, split law recomputed from recorded inflows, initial-flush reference", "exploration of junction sub-graphs; split law and initial flush recomputed independently"),
+ "C05": ("property-based testing: duration/step ratio classes, black-box occupancy and release-timing relations + cohort-exact bin replay", "exploration over D/dt ratio classes incl. integer-up-to-rounding; black-box inequalities/equalities on arrivals, occupancy and timed outflow, and per-bin replay"),
+ "C06": ("property-based differential testing: every parameter at every index recomputed by the precedence chain (own interpolation, own expression evaluator)", "exploration of dependency graphs, data patterns, factors, limits, scenarios and derivative parameters; independent recomputation of every value"),
+ "C07": ("property-based testing: truth-first initial conditions with perturbation classes, acceptance/refusal oracle", "exploration of inclusion structures and data classes; accepted states must reproduce the databook, refusals must be BadInitialization"),
+ "C08": ("model-based/stateful property testing: operation sequences over a project pool, digest and canonical-form invariants, fresh-process differential", "exploration of operation histories (runs, copies, pickles, save/load, interleaved projects) with bitwise digests and structural equality of inputs; sampled fresh processes with different hash seeds"),
+ "C09": ("metamorphic property-based testing: intervention vs baseline pairs compared before the intervention year", "exploration of (model, intervention kind, Y) with a metamorphic equality oracle"),
+ "C10": ("metamorphic property-based testing: restart vs tail of the parent run (bitwise on dyadic grids), spreadsheet round trip of the saved state", "exploration of (model, Y, restart chain, spreadsheet) with an equality oracle on all trajectories"),
+ "C11": ("property-based testing of the coverage functions against a documentation-derived reference and algebraic laws", "exploration of direct function arguments (bounds, monotonicity, precedence, step independence)"),
+ "C12": ("property-based testing: weight probing through linearity, reference distribution, convexity laws", "exploration of coverage cubes x outcome tables; the implementation's combination weights are read off and checked to be a distribution with the right marginals"),
+ "C13": ("property-based differential testing: coverage, outcome and parameter conversion recomputed per step; reports compared with the run", "exploration of generated models with program sets and instructions"),
+ "C14": ("property-based testing of constraint functions with a validity-predicate oracle (sum, bounds, unchanged-if-feasible, set-up errors)", "exploration of proposal/bound vectors and constraint objects without simulation"),
+ "C15": ("property-based testing + fault enumeration: exception injected at every evaluation index, canonical-form comparison of caller state, own objective", "small optimisation/calibration problems; every fault point k=1..N of a reference run enumerated"),
+ "C16": ("property-based round-trip testing with content projections + operation histories compared with rebuild(export(obj))", "exploration of generated and library books, editing histories up to length 4"),
+ "C17": ("property-based testing of sampled runs: pairwise-distinct fingerprints across worker/sample counts, source canon", "exploration of (samples, workers, seeds); the OS schedule is not owned by the harness"),
+ "C18": ("structured mutation fuzzing of workbooks with a verdict catalogue + acceptance chain for generated valid frameworks", "catalogue x sites x base files (drawn in quick, enumerated in thorough)"),
+ "C19": ("exhaustive enumeration of AST node types/nestings + grammar-based property testing + coverage-guided fuzzing (atheris) against an independent AST whitelist; arithmetic differential", "node enumeration is exhaustive to depth 2 (quick) / 3 (thorough); the rest is exploration"),
+ "C20": ("metamorphic property-based testing: every ordered subset of a request, own sums as reference, result digest", "exploration of results x request permutations (permutations of a drawn list enumerated completely)"),
+}
 checks, na = [], []
 for p in props:
     pid = p["id"]
@@ -23,9 +45,9 @@ for p in props:
         "evidence_file": "evidence/%s.json" % pid,
         "replay_cmd_template": "/venv/bin/python check.py %s --replay {path}" % pid,
         "engine": "hypothesis-sharded",
-        "level_claimed": {"category": getattr(mod, "LEVEL", "exploration"), "text": getattr(mod, "LEVEL_TEXT", "generated-input search against an explicit oracle; no counterexample among the generated cases, class coverage reported, mutants killed"), "design_ref": "DESIGN.md section 2, " + pid},
+        "level_claimed": {"category": getattr(mod, "LEVEL", "exploration"), "text": getattr(mod, "LEVEL_TEXT", TECH.get(pid, ("", "generated-input search against an explicit oracle"))[1] + "; no counterexample among the generated cases (counts, class histogram and samples in the evidence file), sensitivity shown by mutants and independently seeded changes (DESIGN.md section 8)"), "design_ref": "DESIGN.md section 2, " + pid},
         "level_note": "; ".join(getattr(mod, "ASSUMPTIONS", [])) or "none",
-        "technique": getattr(mod, "TECHNIQUE", "property-based testing (Hypothesis) against an explicit oracle"),
+        "technique": getattr(mod, "TECHNIQUE", TECH.get(pid, ("property-based testing (Hypothesis) against an explicit oracle",))[0]),
     })
 man = {
     "version": 1,
